@@ -8,6 +8,7 @@ import (
 
 	"github.com/gopher-fleece/gleece/v2/gast"
 	"github.com/gopher-fleece/gleece/v2/graphs"
+	"github.com/gopher-fleece/gleece/v2/infrastructure/verifhook"
 )
 
 // TypeDeclVisitor dispatches type declarations to specialized visitors for processing
@@ -170,15 +171,18 @@ func (v *TypeDeclVisitor) EnsureDeclMaterialized(
 		return declKey, nil
 	}
 
+	verifhook.Event("materialize-start", declKey.Id())
 	// We are now the materializer for this declaration.
 	symKey, err := v.VisitTypeDecl(pkg, file, genDecl, typeSpec)
 	if err != nil {
 		// Mark the materialization as 'failed'
 		v.context.MetadataCache.FinishMaterializing(declKey, false)
+		verifhook.Event("materialize-end", declKey.Id()+"|fail")
 		return declKey, err
 	}
 
 	// Mark the materialization as 'successful'
 	v.context.MetadataCache.FinishMaterializing(declKey, true)
+	verifhook.Event("materialize-end", declKey.Id()+"|ok")
 	return symKey, nil
 }
